@@ -3,7 +3,7 @@
 # (applies, full test suite passes, demo fails with it, passes without it)
 id=$1
 wt=/tmp/mut/$id
-out=/tmp/mut/$id-out
+out=/tmp/mut/$id-out${2:-}
 export CARGO_NET_OFFLINE=true RUST_BACKTRACE=0
 cd $wt || exit 2
 git checkout -q -- . 
